@@ -4,6 +4,8 @@
 //! (spec/Hal/HalTrace.tla) to validate.  No semantic decision is taken here: the harness only
 //! *projects* memory to integers and groups byte-identical outcomes.
 use crate::util::{ABuf, Rng, guarded};
+#[allow(unused_imports)]
+use crate::util::scr_call;
 use poulpy_cpu_avx::{FFT64Avx, NTT120Avx};
 use poulpy_cpu_ref::{FFT64Ref, NTT120Ref};
 use poulpy_hal::api::*;
@@ -119,6 +121,7 @@ pub struct Plan {
     pub big_b: bool,
     pub big_r: bool,
     pub uses_r: bool,
+    pub exact: bool,
 }
 
 fn gu(c: &Value, k: &str, d: u64) -> u64 {
@@ -235,10 +238,12 @@ pub fn make_plan(c: &Value, seed: u64) -> Plan {
         big_b,
         big_r,
         uses_r,
+        exact: c.get("scr").and_then(|v| v.as_str()) == Some("exact"),
     }
 }
 
 pub struct Outcome {
+    pub scr: Vec<Value>,
     pub d: Vec<Vec<i128>>,
     pub frame_ok: bool,
     pub panic: String,
@@ -257,7 +262,7 @@ macro_rules! hal_backend {
                         Ok(m) => {
                             mods.insert(nn, m);
                         }
-                        Err(e) => return Outcome { d: vec![], frame_ok: true, panic: format!("Module::new({nn}): {e}") },
+                        Err(e) => return Outcome { scr: vec![], d: vec![], frame_ok: true, panic: format!("Module::new({nn}): {e}") },
                     }
                 }
             }
@@ -288,8 +293,22 @@ macro_rules! hal_backend {
                     parts.push(Opd::new(p.n, p.rcols, p.rs, 0, p.rcol, 8, f ^ (10 + q as u64)));
                 }
             }
-            // scratch: generous here (exact-size windows are C12's business), garbage-filled
-            let mut sbuf = ABuf::new(1 << 16, f ^ 5);
+            // scratch: exact-size window (declared by the companion query) when the descriptor asks for it,
+            // generous otherwise; always garbage-filled and canary-guarded
+            let decl: usize = match op {
+                "normalize" | "normalize_assign" if !p.op.starts_with("big_") => m.vec_znx_normalize_tmp_bytes(),
+                "lsh" | "lsh_add_into" | "lsh_sub" | "lsh_assign" => m.vec_znx_lsh_tmp_bytes(),
+                "rsh" | "rsh_add_into" | "rsh_sub" | "rsh_assign" => m.vec_znx_rsh_tmp_bytes(),
+                "rotate_assign" => m.vec_znx_rotate_assign_tmp_bytes(),
+                "automorphism_assign" if !p.op.starts_with("big_") => m.vec_znx_automorphism_assign_tmp_bytes(),
+                "automorphism_assign" => m.vec_znx_big_automorphism_assign_tmp_bytes(),
+                "mul_xp_minus_one_assign" => m.vec_znx_mul_xp_minus_one_assign_tmp_bytes(),
+                "split_ring" => mods[&p.na].vec_znx_split_ring_tmp_bytes(),
+                "merge_rings" => m.vec_znx_merge_rings_tmp_bytes(),
+                "normalize" | "normalize_add_assign" | "normalize_sub_assign" | "normalize_negate" => m.vec_znx_big_normalize_tmp_bytes(),
+                _ => 0,
+            };
+            let mut scr_log: Vec<Value> = Vec::new();
             let snap_res = res.buf.snapshot();
             let snap_a = a.buf.snapshot();
             let snap_b = b.buf.snapshot();
@@ -297,8 +316,7 @@ macro_rules! hal_backend {
             let snap_parts: Vec<Vec<u8>> = parts.iter().map(|o| o.buf.snapshot()).collect();
             let (rc, ac, bc) = (p.rcol, p.acol, p.bcol);
             let k = p.k;
-            let r = guarded(|| {
-                let scratch: &mut Scratch<BE> = <Scratch<BE> as ScratchFromBytes<BE>>::from_bytes(sbuf.win_mut());
+            let r = guarded(|| crate::util::scr_call::<BE, _>(p.exact, decl, f ^ 5, p.op.as_str(), &mut scr_log, |scratch| {
                 match p.op.as_str() {
                     "zero" => m.vec_znx_zero(&mut res.vz_mut(), rc),
                     "copy" => m.vec_znx_copy(&mut res.vz_mut(), rc, &a.vz(), ac),
@@ -367,7 +385,7 @@ macro_rules! hal_backend {
                     "big_normalize_negate" => m.vec_znx_big_normalize_negate(&mut res.vz_mut(), p.rb, k, rc, &a.big::<BE>(), p.ab, ac, scratch),
                     other => panic!("harness: unknown op {other}"),
                 }
-            });
+            }));
             let panic = r.err().unwrap_or_default();
             let mut frame_ok = a.buf.unchanged_except(&snap_a, &[]) && b.buf.unchanged_except(&snap_b, &[]) && s.buf.unchanged_except(&snap_s, &[]);
             let d;
@@ -384,7 +402,7 @@ macro_rules! hal_backend {
                 frame_ok &= res.buf.unchanged_except(&snap_res, &res.col_ranges());
                 d = res.read();
             }
-            Outcome { d, frame_ok, panic }
+            Outcome { scr: scr_log, d, frame_ok, panic }
         }
     };
 }
@@ -424,9 +442,13 @@ pub fn run_case(mods: &mut Mods, c: &Value, seed: u64) -> Value {
     let mut groups: Vec<(Vec<Value>, Vec<Vec<i128>>, String)> = Vec::new();
     let mut frame = true;
     let mut frame_bad: Vec<String> = vec![];
+    let mut scr_all: Vec<Value> = vec![];
     for be in 0..4 {
         for fill in 0..2u64 {
             let o = mods.exec(be, &p, fill + 1);
+            if p.exact {
+                scr_all.push(json!({"b": be, "f": fill, "calls": o.scr}));
+            }
             if !o.frame_ok {
                 frame = false;
                 frame_bad.push(format!("{}:{}", BACKENDS[be], fill));
@@ -465,6 +487,7 @@ pub fn run_case(mods: &mut Mods, c: &Value, seed: u64) -> Value {
         "outs": outs,
         "frame": frame,
         "frame_bad": frame_bad,
+        "scr": scr_all,
         "did": gu(c, "did", 0),
         "chunk": gu(c, "chunk", 0),
         "nchunks": gu(c, "nchunks", 1),
@@ -558,7 +581,7 @@ pub fn run_encode_case(c: &Value, seed: u64) -> Value {
         "p": {"k": p.k, "limb": p.limb, "part": 0, "rb": p.rb, "ab": p.ab},
         "shape": {"rcols": p.rcols, "rcol": p.rcol, "acols": 1, "acol": 0, "bcols": 1, "bcol": 0, "rextra": p.rextra},
         "ins": {"a": json!(p.da), "b": json!([]), "r": if p.op == "encode_coeff_i64" { json!(p.dr) } else { json!([]) }, "s": json!([]), "parts": json!([])},
-        "outs": outs, "frame": frame, "frame_bad": if frame { json!([]) } else { json!(["encode"]) },
+        "outs": outs, "frame": frame, "frame_bad": if frame { json!([]) } else { json!(["encode"]) }, "scr": json!([]),
         "did": gu(c, "did", 0), "chunk": gu(c, "chunk", 0), "nchunks": gu(c, "nchunks", 1),
         "alpha": c.get("alpha").cloned().unwrap_or(json!([])),
         "chk": c.get("chk").cloned().unwrap_or(json!("full")),
